@@ -21,7 +21,7 @@ QUICK_BUDGET_S = 110
 BATCH = 25
 SMOKE_RUNS = 6
 DETERMINISM_RUNS = 40
-KINDS = G.KINDS_ALL
+KINDS = G.KINDS_WITH_MERGEONLY
 MUST = None
 COMPONENTS = {
     "real": ["strax.Context.get_iter/get_components", "ThreadedMailboxProcessor", "SingleThreadProcessor",
@@ -46,16 +46,20 @@ def decorate(r, spec, pool, mp=False):
         else:
             o["save_when"] = sw
             o["rechunk_on_save"] = r.random() < 0.5
-        o["target_mb"] = r.choice([200, 200, 4 * ROW_BYTES / 1e6, 2 * ROW_BYTES / 1e6, ROW_BYTES / 1e6])
-        if pool and n["kind"] in ("rowmap", "filter", "merge2", "multi") and r.random() < 0.6:
+        # a target below one row is a configuration error ("Target size is too small"), not a subject of C01
+        isz = (P.merged_dtype_for(n["deps"]).itemsize if n["kind"] == "mergeonly"
+               else max(P.dtype_for(d).itemsize for d in P.names_of(n)))
+        rb = max(ROW_BYTES, isz)
+        o["target_mb"] = r.choice([200, 200, 4 * rb / 1e6, 2 * rb / 1e6, rb / 1e6])
+        if pool and n["kind"] in ("rowmap", "filter", "merge2", "multi", "cut", "mergeonly") and r.random() < 0.6:
             o["parallel"] = True
         # Multiprocessing mode is explored in its realistic shape only: ONE process-parallel source (mp_source,
-        # a source the target needs, never loaded from storage) from which a ParallelSourcePlugin inlines the
-        # process-parallel plugins above it.  Outside that shape ParallelSourcePlugin has known limits
-        # (DESIGN.md 12.3): it drives everything it inlines with the chunk index of its start plugin and inlines
-        # a second dependency-free source as well; and with a non-source start plugin it looks up its inputs by
-        # data kind where it needs data types.
-        if mp and ((n["kind"] in ("rowmap", "filter", "multi") and r.random() < 0.7) or n.get("name") == mp):
+        # a source the target needs; in half of these runs it or other types may be loaded from storage, so the
+        # ParallelSourcePlugin then starts from a non-source plugin) from which a ParallelSourcePlugin inlines
+        # the process-parallel plugins above it.  Outside that shape ParallelSourcePlugin has a known limit
+        # (DESIGN.md 12.2): it drives everything it inlines with the chunk index of its start plugin and inlines
+        # a second dependency-free source as well.
+        if mp and ((n["kind"] in ("rowmap", "filter", "multi", "cut") and r.random() < 0.7) or n.get("name") == mp):
             o["parallel"] = "process"
             if r.random() < 0.7:        # savers of non-rechunking outputs are inlined ('forked') too
                 o["rechunk_on_save"] = {d: False for d in n["names"]} if "names" in n else False
@@ -90,7 +94,8 @@ def gen(seed, tier, kinds=None, must=None, **graph_opts):
     cfg = G.gen_proc_config(r, spec, target, stored=stored, tier=tier)
     mp_source = False
     if cfg.get("allow_multiprocess"):
-        stored = {}
+        if r.random() < 0.5:
+            stored = {}
         mp_source = sorted(d for d in need if P.node_by_type(spec)[d]["kind"] == "source")[0]
     decorate(r, spec, cfg["max_workers"] > 1, mp=mp_source)
     nb = P.node_by_type(spec)
